@@ -56,10 +56,12 @@ func CheckPool(e *Env, prop string) (int, error) {
 	}
 	rule := "case = one seeded call history (<= 80 steps) over a pool of 6 points (some zero-value), 6 scalars, <= 16 key objects and tracked caller buffers; receivers and arguments drawn with replacement. distinct_nontrivial = number of distinct history digests (SHA-256 over every step's inputs and outputs) among histories in which at least one injected fault fired (failing call, uninitialised operand, caller mutation, slot reset, re-randomised representative)."
 	cov := map[string]any{
-		"evaluations":              a.Runs,
-		"distinct_nontrivial":      len(a.NonTrivial),
-		"rule":                     rule,
-		"samples":                  samplesFrom(traced, 3),
+		"evaluations":         a.Runs,
+		"distinct_nontrivial": len(a.NonTrivial),
+		"rule":                rule,
+		"samples": e.samplesOrFetch(traced, 3, func() *Job {
+			return &Job{Bin: bin, Variant: "asm", World: "pool", Prop: prop, From: 0, N: 6, Extra: []string{"-trace"}}
+		}),
 		"operations_executed":      a.Ops,
 		"fault_kinds_fired":        a.Faults,
 		"reach_probes":             a.Probes,
